@@ -168,6 +168,8 @@ pub async fn throttle_collect(
 			match maybe_event {
 				Err(_timeout) => {
 					trace!("timed out, cycling");
+					#[cfg(watchexec_verif)]
+					watchexec_supervisor::verif::emit("timeout", 0, 0);
 					continue;
 				}
 				Ok(Err(_empty)) => return Ok(None),
@@ -186,6 +188,8 @@ pub async fn throttle_collect(
 							Err(err) => {
 								trace!(%err, "filter errored on event");
 								errors.send(err).await?;
+								#[cfg(watchexec_verif)]
+								watchexec_supervisor::verif::emit("err_sent", 0, 0);
 								continue;
 							}
 							Ok(false) => {
